@@ -187,7 +187,7 @@ P("C18",
   level_text="Bounded random exploration: (a) rule lists of valid CIDRs (/0../32, overlapping, nested, adjacent, duplicated) mixed with comments, blanks, IPv6 and "
              "malformed lines, over several reloads, queried at range endpoints +-1 and compared with a linear scan by an independent parser model (validity is known "
              "by construction, never guessed); a failed reload must leave the previous list in force. (b) push/pop/reset histories on the candidate-address queue compared with "
-             "a model: documented filters (port 0, own loopback address, own IP, blocked IP), cap, per-source counts, pops in non-increasing BEP 40 priority (independent "
+             "a model: documented filters (port 0, own loopback address, own IP together with the own listening port, blocked IP), cap, per-source counts, pops in non-increasing BEP 40 priority (independent "
              "implementation checked against the BEP's vectors), evictions oldest batch first.",
   level_note="Trusted: the harness model and its BEP 40 implementation. Which member of a partially evicted batch survives is left free (not specified); a priority "
              "collision with such a batch makes the model count ambiguous and the case is counted inconclusive. The 'never dials ...' clauses over a live session are decided by the session unit when listed.",
